@@ -45,10 +45,10 @@ class Ctx:
         print(f"[{self.pid}]", *a, flush=True)
 
     # ---- coq
-    def coq_build_cached(self, files, timeout=900):
+    def coq_build_cached(self, files, timeout=900, deps=None):
         """Sequential build where a file is recompiled only if its source, any earlier file in the
         list, any Base file or the Coq version changed since its .vo was produced."""
-        done = []
+        done = [COQ / d if not Path(d).is_absolute() else Path(d) for d in (deps or [])]
         for f in files:
             p = COQ / f if not Path(f).is_absolute() else Path(f)
             hits = coqrun.forbidden_tokens(p)
